@@ -1,6 +1,7 @@
 """C03 -- right result to the right future, at-most-once execution."""
 from ..rules import routing as Rt
 from ..rules import liveness as L
+from ..rules import scenario as SC
 
 EXPLANATION = (
     "Static analysis. Decides: the work id is allocated from a counter that only ever grows by one, under the shutdown "
@@ -19,5 +20,6 @@ def run(e, R, tier):
         Rt.r_id,
         Rt.r_once,
         L.r_drop_resolves,
+        SC.r_scn_result,
     ])
     R.trust("Future.set_running_or_notify_cancel returns False iff the future was cancelled; Executor.map submits one call per element of zip(*iterables)")
